@@ -471,18 +471,11 @@ func (wd *world) end() {
 	wd.w.Emit(map[string]any{"ev": "end", "out": out, "handled": handled, "termhooks": hooks, "serve": wd.serveRes, "diverged": wd.diverged})
 }
 
-// run executes one schedule followed by a drain phase, inside a fresh bubble
+// runOne executes one schedule followed by a random walk and a drain phase. All runs of a driver process share
+// ONE synctest bubble (see TestRuns): library state that outlives a server (e.g. a package-level pool) then
+// behaves as it does in a real process, where all servers and connections live in the same world.
 func runOne(t *testing.T, w *vh.Writer, sc Schedule, seed int64, randomSteps int, shutdown bool) {
-	defer func() {
-		if r := recover(); r != nil {
-			// synctest reports goroutines that are still blocked when the bubble ends ("deadlock"): the leak was already logged
-			msg := fmt.Sprint(r)
-			if !strings.Contains(msg, "deadlock") && !strings.Contains(msg, "blocked") {
-				panic(r)
-			}
-		}
-	}()
-	synctest.Test(t, func(t *testing.T) {
+	{
 		w.Emit(map[string]any{"ev": "reset", "id": sc.ID})
 		wd := newWorld(w, seed)
 		go func() {
@@ -574,7 +567,7 @@ func runOne(t *testing.T, w *vh.Writer, sc Schedule, seed int64, randomSteps int
 		kmipserver.VerifHook = nil
 		wd.ln.Close() // lets the accept loop of a run without Shutdown return
 		synctest.Wait()
-	})
+	}
 }
 
 func TestRuns(t *testing.T) {
@@ -609,14 +602,27 @@ func TestRuns(t *testing.T) {
 		w.Flush()
 		runOne(t, w, sc, seed, steps, shutdown)
 	}
-	for i, sc := range scheds {
-		run(sc, vh.Seed()*7919+int64(i), 0)
-	}
-	nrand := vh.EnvInt("VERIF_NRANDOM", 200)
-	for i := 0; i < nrand; i++ {
-		// every walk starts with a connection and a request so that the interesting part is reached
-		pre := Schedule{ID: fmt.Sprintf("rw-%d-%d", vh.Seed(), i), Cmds: []Cmd{{Op: "env", Act: "CliConnect", C: 1}, {Op: "env", Act: "CliSend", C: 1, Kind: "req"}}}
-		run(pre, vh.Seed()*104729+int64(i), 20+i%60)
-	}
-	fmt.Fprintf(prog, "done %d\n", n)
+	defer func() {
+		if r := recover(); r != nil {
+			// synctest reports goroutines that are still blocked when the bubble ends ("deadlock"): leaks were already logged per run
+			msg := fmt.Sprint(r)
+			if !strings.Contains(msg, "deadlock") && !strings.Contains(msg, "blocked") {
+				panic(r)
+			}
+		}
+	}()
+	synctest.Test(t, func(t *testing.T) {
+		for i, sc := range scheds {
+			run(sc, vh.Seed()*7919+int64(i), 0)
+		}
+		nrand := vh.EnvInt("VERIF_NRANDOM", 200)
+		for i := 0; i < nrand; i++ {
+			// every walk starts with a connection and a request so that the interesting part is reached
+			pre := Schedule{ID: fmt.Sprintf("rw-%d-%d", vh.Seed(), i), Cmds: []Cmd{{Op: "env", Act: "CliConnect", C: 1}, {Op: "env", Act: "CliSend", C: 1, Kind: "req"}}}
+			run(pre, vh.Seed()*104729+int64(i), 20+i%60)
+		}
+		fmt.Fprintf(prog, "done %d\n", n)
+		prog.Sync()
+		w.Flush()
+	})
 }
